@@ -9,7 +9,7 @@ props = {
  "C05": ("sim", "property-based testing: deeply wrapped programs on six hosts (direct, stream-polled, Core command API, Core legacy API, bincode bridge, JSON bridge) against one reference; plus reference-free lock-step comparison of the hosts' observations", "§7 C05, §14.2"),
  "C06": ("sim", "aborts / drops at generated points, late resolutions afterwards; reference rules: aborted work may be dropped, must never be polled", "§7 C06"),
  "C07": ("sim", "is_done and discarded/kept tasks vs reference after every action", "§7 C07"),
- "C08": ("sim", "property-based testing over harness-owned thread schedules (generated choice lists through crux_core's verif schedule points, incl. points inside the app's view/update); per-phase obligations of the guided refinement", "§5, §7 C08, §14.2"),
+ "C08": ("sim", "property-based testing over harness-owned thread schedules (generated choice lists through crux_core's verif schedule points, incl. points inside the app's view/update and after an event is taken off the queue); per-phase obligations of the guided refinement; plus free-running OS threads (typed Core, legacy API, bincode and JSON bridges) compared phase by phase with a sequential twin and judged by model-free trace invariants", "§5, §7 C08, §14.2, §15.2"),
  "C09": ("sim", "bincode and JSON bridges: decoded requests, ids, view vs reference", "§7 C09"),
  "C10": ("wire", "schema-driven codec + schema-valid value generator against bincode/serde of the real types, both directions", "§6, §7 C10"),
  "C11": ("data", "replays on fresh threads and in fresh processes compared byte for byte; equality of independently built values", "§7 C11"),
@@ -43,7 +43,7 @@ manifest = {
         "guard": "cargo feature `verif` (crux_core, crux_time, crux_http, crux_cli)",
         "enable": "the harness crates depend on /repo/crux_* by path with features = [\"verif\"]; every check rebuilds them from /repo's working tree",
         "baseline_off_cmd": "cd /repo && RUSTUP_TOOLCHAIN=stable-x86_64-unknown-linux-gnu CARGO_NET_OFFLINE=true cargo nextest run --workspace --no-fail-fast --offline --test-threads 8",
-        "source_commits": ["3ef15fe", "d659bec", "5e694e9", "df12c6a"],
+        "source_commits": ["3ef15fe", "d659bec", "5e694e9", "df12c6a", "a6f53c4"],
         "add_only": True,
     },
     "engines": [
@@ -54,7 +54,7 @@ manifest = {
     ],
     "checks": checks,
     "not_applicable": [],
-    "notes": "Known findings (recorded, not repaired) and fixed findings (repaired by fix: commits in /repo) are listed in /verif/known_findings.txt; DESIGN.md §14 is the build-phase record; seeded/ holds 80 independently written breaking changes with RESULTS.md (which check reports which).",
+    "notes": "Known findings (recorded, not repaired) and fixed findings (repaired by fix: commits in /repo) are listed in /verif/known_findings.txt; DESIGN.md §14 is the build-phase record; seeded/ holds 120 independently written breaking changes (three rounds) with RESULTS.md (which check reports which).",
 }
 json.dump(manifest, open("MANIFEST.json", "w"), indent=1)
 print("written", len(checks), "checks")
